@@ -161,6 +161,16 @@ add("C13", "TLC exhaustive on OpAlgebra.tla (sampling obligations sf/si, PSD law
     "PSD matrix may return a sample. SamplingEnabler(A, B) must draw from (A+B)^-1 to the solver tolerance.",
     TRUST + "no Monte Carlo: the sample is linear in the noise; domains of <=4 pixels.")
 
+add("C11", "TLC on LikelihoodCl.tla (value terms, exact gradient and Fisher metric of every classic likelihood energy and their chained / scaled / summed / Hamiltonian versions in exact rationals) + replay of every instance into nifty.cl",
+    "Gaussian (diagonal and sandwich covariance), Poisson, Bernoulli, Student-t, inverse gamma and categorical energies at rational points are transcribed as "
+    "negative log-probabilities: value as a list of terms c*fn(arg), gradient and Fisher metric as exact rationals, with the composition laws for a linear "
+    "integer model, scalar factors, sums of two likelihoods on the same parameters and the standard Hamiltonian (120 instances, TLC checks symmetry and "
+    "positivity). Every instance is evaluated with nifty.cl on a plain field and on a Linearization with metric: plain value = linearized value, value "
+    "differences between points = differences of the spec value, gradient and dense metric exactly (1e-10), Jt^H Jt = metric for the coordinate "
+    "transformations, get_metric_at = metric. The variable-covariance Gaussian is checked at rational points (value, gradient, both metrics) and its "
+    "transformation in expectation over data by exact moment substitution.",
+    TRUST + "float comparison 1e-10 relative; values are compared up to parameter-independent constants.")
+
 
 def main():
     props = [json.loads(l) for l in open(os.path.join(HERE, "properties.jsonl"))]
